@@ -12,7 +12,7 @@ from ..cfg import CFG
 from ..errors import AnalysisError
 from ..model import FuncInfo, dotted, src, walk_scope
 from ..report import Context
-from ..util import calls_in, kwarg, normaliser, parse_expr, reaching_events, returns_of
+from ..util import IDX, calls_in, kwarg, loop_binding, normaliser, parse_expr, reaching_events, returns_of
 
 LEVEL_TEXT = (
     "Static analysis of black_it/utils/base.py (no execution): get_closest returns, on every path, a subscript of "
@@ -177,6 +177,8 @@ def _disjuncts(e: ast.expr) -> list[ast.expr]:
 
 
 def r2_digitize(ctx: Context) -> None:
+    """Column i of the result is get_closest(param_grid[i], data[:, i]) for every column - read through the canonical loop binding,
+    so `range(data.shape[1])`, `enumerate(param_grid)`, `zip(param_grid, data.T)` and comprehension forms are the same rule instance."""
     f = ctx.func(DD)
     if len(f.params) < 2:
         raise AnalysisError("anchor vanished: digitize_data(data, param_grid)")
@@ -184,44 +186,92 @@ def r2_digitize(ctx: Context) -> None:
     g = CFG(f.node)
     rets = returns_of(f)
     ctx.floor("R2", "return in digitize_data", len(rets), 1)
-    loops = [s for s in walk_scope(f.node) if isinstance(s, ast.For)]
-    ctx.floor("R2", "column loop in digitize_data", len(loops), 1)
+    n0 = normaliser(ctx.prog, f)
+    count_forms = {str(n0.rat(parse_expr(t))) for t in (f"{data}.shape[1]", f"len({grid})", f"{data}.shape[-1]")}
+    want_text = f"get_closest({grid}[{IDX}], {data}[:, {IDX}])"
+
+    def pairing(env: dict, counts: list, value: ast.expr, where: ast.AST, loop_src: str) -> None:
+        n = normaliser(ctx.prog, f, extra_env=env)
+        ok_count = any(str(n0.rat(c)) in count_forms for c in counts)
+        ctx.check(ok_count, "R2.columns", "digitize_data:loop", "the loop visits every column of the data", f"column loop is `{loop_src}`", f, where)
+        got, want = n.rat(value), n.rat(parse_expr(want_text))
+        calls_gc = isinstance(value, ast.Call) and any(isinstance(tg, FuncInfo) and tg.qualname == GC for tg in ctx.prog.resolve_call(f, value))
+        if not calls_gc and str(got) != str(want):
+            raise AnalysisError(f"{f.loc(where)}: the column value `{src(value)[:80]}` is not a direct get_closest call; cannot decide R2")
+        ctx.check(str(got) == str(want), "R2.pairing", "digitize_data:column-pairing", "column i <- get_closest(param_grid[i], data[:, i])",
+                  f"column value is `{src(value)}` = `{got}`: column, grid and data indices do not pair up", f, where)
+
     for r in rets:
-        if not isinstance(r.value, ast.Name):
-            ctx.fail("R2.result", "digitize_data:return", f"digitize_data returns `{src(r.value)}` instead of the array it filled column by column", f, r)
-            continue
-        out = r.value.id
-        rn = g.nodes_of(r)[0]
-        evs = reaching_events(g, out, rn)
-        inits = [a for _, k, a in evs if k == "assign"]
-        subs = [a for _, k, a in evs if k == "sub"]
-        bad = [(k, a) for _, k, a in evs if k not in ("assign", "sub")]
-        fresh = len(inits) == 1 and _fresh_like(inits[0].value, data)  # type: ignore[union-attr]
-        ctx.check(fresh, "R2.result", "digitize_data:fresh-output", "the result is a fresh array of the input's shape (the input is not modified)",
-                  f"the result array is created by `{src(inits[0].value) if inits else '?'}`", f, inits[0] if inits else r)  # type: ignore[union-attr]
-        ctx.check(not bad, "R2.result", "digitize_data:no-other-writes", "the result is only written column by column",
-                  f"the result is also modified by `{src(bad[0][1]) if bad else ''}`", f, bad[0][1] if bad else r)
-        ok_cols = len(subs) >= 1
-        for a in subs:
-            t = a.targets[0]  # type: ignore[union-attr]
-            loop = next((lp for lp in loops if any(x is a for x in ast.walk(lp))), None)
-            if loop is None or not isinstance(loop.target, ast.Name):
-                ok_cols = False
+        v = r.value
+        if isinstance(v, ast.Name):
+            out = v.id
+            rn = g.nodes_of(r)[0]
+            evs = reaching_events(g, out, rn)
+            inits = [a for _, k, a in evs if k == "assign"]
+            subs = [a for _, k, a in evs if k == "sub"]
+            bad = [(k, a) for _, k, a in evs if k not in ("assign", "sub")]
+            if len(inits) == 1 and not subs and not bad and isinstance(inits[0], ast.Assign):
+                v = inits[0].value  # `out = <assembled expression>; return out`
+            else:
+                fresh = len(inits) == 1 and _fresh_like(inits[0].value, data)  # type: ignore[union-attr]
+                ctx.check(fresh, "R2.result", "digitize_data:fresh-output", "the result is a fresh array of the input's shape (the input is not modified)",
+                          f"the result array is created by `{src(inits[0].value) if inits else '?'}`", f, inits[0] if inits else r)  # type: ignore[union-attr]
+                ctx.check(not bad, "R2.result", "digitize_data:no-other-writes", "the result is only written column by column",
+                          f"the result is also modified by `{src(bad[0][1]) if bad else ''}`", f, bad[0][1] if bad else r)
+                if not subs:
+                    raise AnalysisError(f"{f.loc(r)}: digitize_data does not fill its result by subscript stores; cannot decide R2")
+                for a in subs:
+                    t = a.targets[0]  # type: ignore[union-attr]
+                    loop = next((lp for lp in walk_scope(f.node) if isinstance(lp, ast.For) and any(x is a for x in ast.walk(lp))), None)
+                    if loop is None:
+                        raise AnalysisError(f"{f.loc(a)}: result store `{src(a)[:60]}` outside a column loop; cannot decide R2")
+                    env, counts = loop_binding(loop.target, loop.iter)
+                    n = normaliser(ctx.prog, f, extra_env=env)
+                    sl = n._slice(t.slice)  # noqa: SLF001
+                    if not sl.startswith(":,") or sl.count(",") != 1:
+                        raise AnalysisError(f"{f.loc(a)}: result store `{src(t)}` is not a whole-column store; cannot decide R2")
+                    ctx.check(sl == f":,{IDX}", "R2.pairing", "digitize_data:column-store", "iteration i stores into column i", f"iteration i stores into `{src(t)}`", f, a)
+                    pairing(env, counts, a.value, a, f"for {src(loop.target)} in {src(loop.iter)}")  # type: ignore[union-attr]
+                    # the store must happen for every column: not skipped by a condition inside the loop
+                    skips = [x for x in ast.walk(loop) if isinstance(x, (ast.Continue, ast.Break)) or (isinstance(x, ast.If) and any(y is a for y in ast.walk(x)))]
+                    ctx.check(not skips, "R2.columns", "digitize_data:unconditional", "every column is snapped (no condition/continue/break in the loop)",
+                              "some columns can be skipped by the column loop", f, skips[0] if skips else loop)
                 continue
-            i = loop.target.id
-            it_ok = src(loop.iter) in (f"range({data}.shape[1])", f"range(len({grid}))", f"range({data}.shape[-1])")
-            tgt_ok = src(t.slice) in (f":, {i}", f"(:, {i})", f"(slice(None, None, None), {i})")
-            v = a.value  # type: ignore[union-attr]
-            call_ok = isinstance(v, ast.Call) and any(isinstance(tg, FuncInfo) and tg.qualname == GC for tg in ctx.prog.resolve_call(f, v)) \
-                and len(v.args) == 2 and src(v.args[0]) == f"{grid}[{i}]" and src(v.args[1]) == f"{data}[:, {i}]"
-            ctx.check(it_ok, "R2.columns", "digitize_data:loop", "the loop visits every column of the data", f"column loop is `for {i} in {src(loop.iter)}`", f, loop)
-            ctx.check(tgt_ok and call_ok, "R2.pairing", "digitize_data:column-pairing", "column i <- get_closest(param_grid[i], data[:, i])",
-                      f"column store is `{src(a)}`: column, grid and data indices do not pair up", f, a)
-            # the store must happen for every column: not guarded by a condition inside the loop
-            inner_ifs = [x for x in ast.walk(loop) if isinstance(x, (ast.If, ast.Continue, ast.Break))]
-            ctx.check(not inner_ifs, "R2.columns", "digitize_data:unconditional", "every column is snapped (no condition/continue/break in the loop)",
-                      "some columns can be skipped by the column loop", f, inner_ifs[0] if inner_ifs else loop)
-        ctx.check(ok_cols, "R2.pairing", "digitize_data:column-store", "the result is filled by column stores inside the loop", "no column store found", f, r)
+        # assembled form: column_stack / stack(axis=1) / array(...).T of a comprehension over the columns
+        comp = _column_assembly(v)
+        if comp is None:
+            raise AnalysisError(f"{f.loc(r)}: digitize_data returns `{src(r.value)[:80]}`: neither a column-filled array nor a column assembly; cannot decide R2")
+        if len(comp.generators) != 1 or comp.generators[0].ifs:
+            ctx.fail("R2.columns", "digitize_data:unconditional", "the column comprehension filters or nests: some columns can be skipped", f, r)
+            continue
+        gen = comp.generators[0]
+        env, counts = loop_binding(gen.target, gen.iter)
+        pairing(env, counts, comp.elt, r, f"for {src(gen.target)} in {src(gen.iter)}")
+        ctx.ok("R2.result", "digitize_data:fresh-output", "the result is assembled from the snapped columns (fresh array)")
+
+
+def _column_assembly(v: ast.expr) -> ast.ListComp | ast.GeneratorExp | None:
+    """The comprehension whose elements become the *columns* of `v`, or None."""
+    def comp_of(e: ast.expr):
+        return e if isinstance(e, (ast.ListComp, ast.GeneratorExp)) else None
+    if isinstance(v, ast.Attribute) and v.attr == "T" and isinstance(v.value, ast.Call):
+        fn = (dotted(v.value.func) or "").split(".")[-1]
+        if fn in ("array", "vstack", "asarray", "stack") and v.value.args and (fn != "stack" or const_axis(v.value) in (None, 0)):
+            return comp_of(v.value.args[0])
+    if isinstance(v, ast.Call):
+        fn = (dotted(v.func) or "").split(".")[-1]
+        if fn == "column_stack" and v.args:
+            return comp_of(v.args[0])
+        if fn == "stack" and v.args and const_axis(v) in (1, -1):
+            return comp_of(v.args[0])
+        if fn == "transpose" and len(v.args) == 1 and not v.keywords:
+            return _column_assembly(ast.Attribute(value=v.args[0], attr="T", ctx=ast.Load()))
+    return None
+
+
+def const_axis(call: ast.Call):
+    a = kwarg(call, "axis", 1)
+    return a.value if isinstance(a, ast.Constant) else (None if a is None else "?")
 
 
 def _fresh_like(e: ast.expr, data: str) -> bool:
